@@ -1,578 +1,125 @@
-// c02 drives one client session against a scripted raw server: calls, replies of every
-// class, malformed bytes, cuts at byte offsets of the request and of the reply stream,
-// local Close, with gates parking callers (call.stored, i.e. inside AsyncCall holding the call's mutex) and reply handlers (reply.predone).
+// c02 drives one client session against a scripted server; -proto raw (default) or http.
 package main
 
 import (
-	"bytes"
-	"errors"
 	"fmt"
-	"io"
-	"net"
 	"strings"
-	"sync"
-	"sync/atomic"
-	"time"
 
-	. "verifharness/hlib"
+	"verifharness/c02eng"
 
 	erpc "github.com/henrylee2cn/erpc/v6"
-	"github.com/henrylee2cn/erpc/v6/socket"
+	"github.com/henrylee2cn/erpc/v6/proto/httproto"
+	"github.com/henrylee2cn/erpc/v6/xfer/gzip"
 )
 
-const settleTimeout = 4 * time.Second
-
-// cutConn is the client's connection; when armed, the next Write passes cutAfter bytes on,
-// closes the connection and fails (a cut at that byte offset of the request).
-type cutConn struct {
-	net.Conn
-	cutAfter int32 // -1 = off
-}
-
-func (c *cutConn) Write(b []byte) (int, error) {
-	k := atomic.LoadInt32(&c.cutAfter)
-	if k < 0 {
-		return c.Conn.Write(b)
+func rawFamily() *c02eng.Family {
+	var cls [][2]string
+	for _, c := range []string{"ok", "ok", "ok", "remote", "undec", "undec0", "hook", "panic"} {
+		cls = append(cls, [2]string{c, c})
 	}
-	atomic.StoreInt32(&c.cutAfter, -1)
-	n := int(k)
-	if n > len(b) {
-		n = len(b)
-	}
-	if n > 0 {
-		c.Conn.Write(b[:n])
-	}
-	c.Conn.Close()
-	return n, errors.New("connection cut by the test")
-}
-
-// replyPlugin makes bindReply's hooks refuse or panic when the reply says so.
-type replyPlugin struct{}
-
-func (replyPlugin) Name() string { return "c02reply" }
-func (replyPlugin) PreReadReplyBody(ctx erpc.ReadCtx) *erpc.Status {
-	switch string(ctx.PeekMeta("x-verif")) {
-	case "hook":
-		return erpc.NewStatus(499, "refused by hook", "")
-	case "panic":
-		panic("c02: panic while decoding a reply")
-	}
-	return nil
-}
-
-func classOf(st *erpc.Status) string {
-	if st.OK() {
-		return "ok"
-	}
-	switch st.Code() {
-	case erpc.CodeConnClosed:
-		return "connclosed"
-	case erpc.CodeWriteFailed:
-		return "writefailed"
-	case erpc.CodeBadMessage:
-		return "badmsg"
-	case 500:
-		return "remote"
-	case 499:
-		return "hook"
-	}
-	return fmt.Sprintf("code%d", st.Code())
-}
-
-type callRec struct {
-	ch       chan erpc.CallCmd
-	cmd      atomic.Value // erpc.CallCmd once AsyncCall returned
-	returned int32
-	res      string
-}
-
-type world struct {
-	P        erpc.Peer
-	sess     erpc.Session
-	cc       *cutConn
-	sc       net.Conn
-	raw      *RawPeer
-	g        *GateCtl
-	calls    []*callRec
-	sent     int // frames (or malformed chunks) the reader has to get through
-	lost     bool
-	armC     bool
-	armR     bool
-	closing  bool
-	closed   chan struct{}
-	drainWG  sync.WaitGroup
-}
-
-func newWorld() *world {
-	w := &world{closed: make(chan struct{})}
-	w.P = erpc.NewPeer(erpc.PeerConfig{}, replyPlugin{})
-	// an in-memory connection: a write after the peer has gone fails at once and always
-	// (over TCP the first such write may still be buffered)
-	c, s := ScriptPipe("c:1", "s:1")
-	w.cc = &cutConn{Conn: c, cutAfter: -1}
-	w.sc = s
-	w.raw = NewRawPeer(s)
-	w.sess, _ = w.P.ServeConn(w.cc)
-	w.g = NewGateCtl()
-	w.drainWG.Add(1)
-	go func() { defer w.drainWG.Done(); io.Copy(io.Discard, s) }()
-	return w
-}
-
-func (w *world) destroy() {
-	w.g.Uninstall()
-	w.sc.Close()
-	w.cc.Conn.Close()
-	// a Close() that hangs is a finding of the run (reported by the oracles); it must not hang
-	// the harness: the teardown is bounded
-	fin := make(chan struct{})
-	go func() {
-		w.drainWG.Wait()
-		w.sess.Close()
-		w.P.Close()
-		close(fin)
-	}()
-	select {
-	case <-fin:
-	case <-time.After(2 * time.Second):
+	return &c02eng.Family{
+		Name:      "raw",
+		NewResult: func() interface{} { return new(string) },
+		ResultOK:  func(r interface{}) bool { return *(r.(*string)) == "r" },
+		Reply: func(seq int32, c string) []byte {
+			return c02eng.FrameBytes(nil, c02eng.RawReplySettings(seq, c)...)
+		},
+		Classes: cls,
+		Bad:     [][]byte{{0, 0, 0, 2, 0, 0}, {0, 0, 0, 9, 0, 0xff, 0xff, 0xff, 0xff}, {0, 0, 0, 6, 200, 1}},
+		Arg:     "x",
 	}
 }
 
-func (w *world) readerClass() string { return w.readerClassIn(GoroutineDump()) }
+// ---- HTTP-style protocol: every response is written by hand ----
 
-func (w *world) readerClassIn(d []string) string {
-	if CountIn(d, "startReadAndHandle") == 0 {
-		return "gone"
+func httpResp(code string, seq int32, headers []string, body string) []byte {
+	var b strings.Builder
+	b.WriteString("HTTP/1.1 " + code + "\r\n")
+	for _, h := range headers {
+		b.WriteString(h + "\r\n")
 	}
-	// readDisconnected first: after a recovered panic it runs on top of the panicking frames
-	if CountIn(d, "readDisconnected", "sync.(*Mutex).Lock") > 0 || CountIn(d, "readDisconnected", "Group).Wait") > 0 {
-		return "discwait"
-	}
-	if CountIn(d, "readDisconnected") == 0 && CountIn(d, "bindReply", "sync.(*Mutex).Lock") > 0 {
-		return "lockwait"
-	}
-	if CountIn(d, "startReadAndHandle", "ReadMessage", "IO wait") > 0 || CountIn(d, "startReadAndHandle", "ReadMessage", "ScriptConn).Read") > 0 {
-		return "reading"
-	}
-	return "other"
+	b.WriteString(fmt.Sprintf("X-Mtype: 2\r\nX-Seq: %d\r\n\r\n", seq))
+	b.WriteString(body)
+	return []byte(b.String())
 }
 
-func (w *world) closerClassIn(d []string) string {
-	if !w.closing {
-		return "idle"
-	}
-	select {
-	case <-w.closed:
-		return "done"
-	default:
-	}
-	if CountIn(d, "closeLocked", "Group).Wait") > 0 {
-		return "blocked"
-	}
-	return "other"
-}
+func cl(n int) string { return fmt.Sprintf("Content-Length: %d", n) }
 
-func (w *world) sample(d []string) string {
-	var cs []string
-	rc := w.readerClassIn(d)
-	for _, c := range w.calls {
-		done, cls := "pending", "none"
-		if v := c.cmd.Load(); v != nil {
-			cmd := v.(erpc.CallCmd)
-			select {
-			case <-cmd.Done():
-				done = "done"
-				cls = classOf(cmd.Status())
-			default:
-			}
-		} else if len(c.ch) > 0 {
-			// completed inside AsyncCall which has not returned yet (parked before return)
-			done = "done"
-			cmd := <-c.ch
-			c.ch <- cmd
-			cls = classOf(cmd.Status())
+const ctJSON = "Content-Type: application/json;charset=utf-8"
+
+func httpFamily() *c02eng.Family {
+	gzip.Reg('g', "gzip", 5)
+	goodStatus := `{"code":500,"msg":"boom","cause":"c"}`
+	cutStatus := `{"code":500,"msg":"bo`
+	reply := func(seq int32, c string) []byte {
+		switch c {
+		case "200":
+			return httpResp("200 OK", seq, []string{cl(3), ctJSON}, `"r"`)
+		case "299-status":
+			return httpResp("299 Business Error", seq, []string{cl(len(goodStatus)), ctJSON}, goodStatus)
+		case "299-truncated-status":
+			return httpResp("299 Business Error", seq, []string{cl(len(cutStatus)), ctJSON}, cutStatus)
+		case "299-truncated-status-no-content-type":
+			return httpResp("299 Business Error", seq, []string{cl(len(cutStatus))}, cutStatus)
+		case "200-undecodable-body":
+			return httpResp("200 OK", seq, []string{cl(3), ctJSON}, `{{{`)
+		case "200-no-content-type":
+			return httpResp("200 OK", seq, []string{cl(3)}, `zzz`)
+		case "200-hook":
+			return httpResp("200 OK", seq, []string{cl(3), ctJSON, "x-verif: hook"}, `"r"`)
+		case "200-panic":
+			return httpResp("200 OK", seq, []string{cl(3), ctJSON, "x-verif: panic"}, `"r"`)
+		case "200-bad-gzip-body":
+			// the body cannot be inflated: on HEAD xfer/gzip.OnUnpack dereferences a nil reader in its
+			// deferred Close (recovered by the read loop): the session disconnects before the frame is bound
+			return httpResp("200 OK", seq, []string{cl(5), ctJSON, "X-Content-Encoding: gzip"}, `zzzzz`)
+		case "bad-content-length":
+			return httpResp("200 OK", seq, []string{"Content-Length: abc", ctJSON}, `"r"`)
+		case "unknown-content-encoding":
+			return httpResp("200 OK", seq, []string{cl(3), "X-Content-Encoding: nosuchfilter", ctJSON}, `"r"`)
+		case "unsupported-status-code":
+			return httpResp("404 Not Found", seq, []string{cl(3), ctJSON}, `"r"`)
 		}
-		if rc == "discwait" && (done == "pending" || cls == "connclosed") {
-			// the cancel loop is blocked somewhere in the pending table; which of the free
-			// calls it has cancelled before blocking depends on the table's iteration order
-			cs = append(cs, VL(VS("flux")))
-			continue
-		}
-		cs = append(cs, VL(VS(done), VN(int64(len(c.ch))), VS(cls)))
+		panic("class " + c)
 	}
-	tab := int64(erpc.VerifPendingCalls(w.sess))
-	if rc == "discwait" {
-		tab = 0
+	return &c02eng.Family{
+		Name:      "http",
+		Proto:     httproto.NewHTTProtoFunc(),
+		NewResult: func() interface{} { return new(string) },
+		ResultOK:  func(r interface{}) bool { return *(r.(*string)) == "r" },
+		Reply:     reply,
+		Classes: [][2]string{
+			{"200", "ok"}, {"200", "ok"}, {"200", "ok"},
+			{"299-status", "remote"},
+			{"299-truncated-status", "undec"},
+			{"299-truncated-status-no-content-type", "undec0"},
+			{"200-undecodable-body", "undec"},
+			{"200-no-content-type", "undec0"},
+			{"200-hook", "hook"}, {"200-panic", "panic"},
+			{"200-bad-gzip-body", "bad"},
+			{"bad-content-length", "bad"}, {"unknown-content-encoding", "bad"}, {"unsupported-status-code", "bad"},
+		},
+		Bad: [][]byte{[]byte("HTTP/1.1 200 OK\r\nno colon here\r\n\r\n"), []byte("GARBAGE\r\n\r\nmore garbage\r\n"), []byte("HTTP/1.1\r\n\r\n\r\n")},
+		Arg: "x",
+		OnlyFresh: map[string]string{"299-truncated-status-no-content-type": "299-truncated-status"},
 	}
-	return VL(VL(cs...), VN(tab),
-		VS(erpc.VerifStatusName(erpc.VerifSessionStatus(w.sess))), VS(rc), VS(w.closerClassIn(d)))
-}
-
-// processed = frames the read loop has got through: accepted ones pass gate read.got, the
-// first rejected one (or a read error) sends it into readDisconnected (gate disc.read).
-func (w *world) processed() int {
-	return w.g.Arrivals("read.got", w.sess) + w.g.Arrivals("disc.read", w.sess)
-}
-
-func (w *world) settle() (string, bool) {
-	var s1 string
-	ok := WaitUntil(settleTimeout, func() bool {
-		d := GoroutineDump()
-		rc := w.readerClassIn(d)
-		if rc == "other" {
-			return false
-		}
-		if rc == "reading" && w.processed() < w.sent {
-			return false
-		}
-		if w.closerClassIn(d) == "other" {
-			return false
-		}
-		// callers: every AsyncCall has returned or is parked at write.done
-		notReturned := 0
-		for _, c := range w.calls {
-			if atomic.LoadInt32(&c.returned) == 0 {
-				notReturned++
-			}
-		}
-		if notReturned != w.g.Parked("call.stored", w.sess)+w.g.Parked("write.done", w.sess) {
-			return false
-		}
-		// reply handlers: none running except those parked at reply.predone
-		if CountIn(d, "handlerCtx).handle") != w.g.Parked("reply.predone", w.sess) {
-			return false
-		}
-		s1 = w.sample(d)
-		time.Sleep(2 * time.Millisecond)
-		return w.sample(GoroutineDump()) == s1
-	})
-	if !ok {
-		s1 = w.sample(GoroutineDump())
-	}
-	return s1, ok
-}
-
-// frameBytes packs a message with the real protocol code into a byte slice.
-type bufConn struct {
-	net.Conn
-	buf bytes.Buffer
-}
-
-func (b *bufConn) Write(p []byte) (int, error) { return b.buf.Write(p) }
-
-func frameBytes(settings ...socket.MessageSetting) []byte {
-	bc := &bufConn{}
-	s := socket.NewSocket(bc)
-	m := socket.NewMessage(settings...)
-	Must(s.WriteMessage(m))
-	return bc.buf.Bytes()
-}
-
-func replySettings(seq int32, cls string) []socket.MessageSetting {
-	base := func(m socket.Message) { m.SetMtype(erpc.TypeReply); m.SetSeq(seq) }
-	switch cls {
-	case "ok":
-		return []socket.MessageSetting{base, socket.WithBodyCodec('j'), socket.WithBody([]byte(`"r"`))}
-	case "remote":
-		return []socket.MessageSetting{base, socket.WithStatus(erpc.NewStatus(500, "boom", ""))}
-	case "undec":
-		return []socket.MessageSetting{base, socket.WithBodyCodec('j'), socket.WithBody([]byte(`{{{`))}
-	case "undec0":
-		return []socket.MessageSetting{base, socket.WithBodyCodec(0), socket.WithBody([]byte(`zzz`))}
-	case "hook", "panic":
-		return []socket.MessageSetting{base, socket.WithBodyCodec('j'), socket.WithBody([]byte(`"r"`)), socket.WithSetMeta("x-verif", cls)}
-	}
-	panic("class " + cls)
-}
-
-var replyClasses = []string{"ok", "ok", "ok", "remote", "undec", "undec0", "hook", "panic"}
-
-func runCase(cfg *RunCfg, st *Stats, idx int, script []string) (string, string) {
-	// script entries: issue | issuecut:K | reply:I:CLS | wrongseq | bad:V | lost | lostpartial:I:K | close | arm:X | disarm:X
-	w := newWorld()
-	defer w.destroy()
-	var ins, outs []string
-	human := strings.Join(script, " ")
-	// every history ends with all gates open and the connection lost
-	script = append(append([]string{}, script...), "disarm:caller", "disarm:callerw", "disarm:reply", "lost")
-	var final string
-	for _, ev := range script {
-		f := strings.Split(ev, ":")
-		var in string
-		switch f[0] {
-		case "issue", "issuecut":
-			c := &callRec{ch: make(chan erpc.CallCmd, 4)}
-			w.calls = append(w.calls, c)
-			if f[0] == "issuecut" {
-				var k int
-				fmt.Sscanf(f[1], "%d", &k)
-				atomic.StoreInt32(&w.cc.cutAfter, int32(k))
-				in = VL(VS("issuecut"))
-			} else {
-				in = VL(VS("issue"))
-			}
-			go func() {
-				cmd := w.sess.AsyncCall("/t/echo", "x", &c.res, c.ch)
-				c.cmd.Store(cmd)
-				atomic.StoreInt32(&c.returned, 1)
-			}()
-			if f[0] == "issuecut" {
-				// the write (if the status check admits it) is cut; the reader then fails
-				WaitUntil(settleTimeout, func() bool {
-					return atomic.LoadInt32(&c.returned) == 1 || w.g.Parked("call.stored", w.sess) > 0 || w.g.Parked("write.done", w.sess) > 0
-				})
-				if atomic.LoadInt32(&w.cc.cutAfter) < 0 { // the cut happened
-					if !w.lost {
-						w.lost = true
-						w.sent++
-					}
-				} else {
-					atomic.StoreInt32(&w.cc.cutAfter, -1)
-				}
-			}
-		case "reply":
-			var i int
-			fmt.Sscanf(f[1], "%d", &i)
-			if !w.lost {
-				w.raw.Sock.WriteMessage(socket.NewMessage(replySettings(int32(i+1), f[2])...))
-				w.sent++
-			}
-			in = VL(VS("reply"), VN(int64(i)), VS(f[2]))
-		case "wrongseq":
-			if !w.lost {
-				w.raw.Sock.WriteMessage(socket.NewMessage(replySettings(1001, "ok")...))
-				w.sent++
-			}
-			in = VL(VS("wrongseq"))
-		case "bad":
-			if !w.lost {
-				switch f[1] {
-				case "0":
-					w.sc.Write([]byte{0, 0, 0, 2, 0, 0})
-				case "1":
-					w.sc.Write([]byte{0, 0, 0, 9, 0, 0xff, 0xff, 0xff, 0xff})
-				default:
-					w.sc.Write([]byte{0, 0, 0, 6, 200, 1})
-				}
-				w.sent++
-			}
-			in = VL(VS("bad"))
-		case "lost", "lostpartial":
-			if !w.lost {
-				if f[0] == "lostpartial" {
-					var i, k int
-					fmt.Sscanf(f[1], "%d", &i)
-					fmt.Sscanf(f[2], "%d", &k)
-					b := frameBytes(replySettings(int32(i+1), "ok")...)
-					if k >= len(b) {
-						k = len(b) - 1
-					}
-					w.sc.Write(b[:k])
-				}
-				w.sc.Close()
-				w.lost = true
-				w.sent++
-			}
-			in = VL(VS("lost"))
-		case "close":
-			if !w.closing {
-				w.closing = true
-				go func() { w.sess.Close(); close(w.closed) }()
-			}
-			in = VL(VS("close"))
-		case "arm":
-			if f[1] == "caller" {
-				w.g.Arm("call.stored", w.sess)
-			} else if f[1] == "callerw" {
-				w.g.Arm("write.done", w.sess)
-			} else {
-				w.g.Arm("reply.predone", w.sess)
-			}
-			in = VL(VS("arm"), VS(f[1]))
-		case "disarm":
-			if f[1] == "caller" {
-				w.g.Disarm("call.stored", w.sess)
-			} else if f[1] == "callerw" {
-				w.g.Disarm("write.done", w.sess)
-			} else {
-				w.g.Disarm("reply.predone", w.sess)
-			}
-			in = VL(VS("disarm"), VS(f[1]))
-		}
-		obs, ok := w.settle()
-		ins = append(ins, in)
-		outs = append(outs, obs)
-		final = obs
-		if !ok {
-			st.Fail(idx, "quiescence", "no quiescent state within the watchdog after "+ev, human)
-			break // one watchdog per case
-		}
-	}
-	// the property, applied to what the implementation did
-	for i, c := range w.calls {
-		v := c.cmd.Load()
-		if v == nil {
-			st.Fail(idx, "hang", fmt.Sprintf("AsyncCall of call %d never returned", i), human)
-			continue
-		}
-		cmd := v.(erpc.CallCmd)
-		select {
-		case <-cmd.Done():
-		default:
-			st.Fail(idx, "hang", fmt.Sprintf("call %d not completed after the connection was lost (final %s)", i, final), human)
-			continue
-		}
-		if n := len(c.ch); n != 1 {
-			st.Fail(idx, "once", fmt.Sprintf("call %d delivered %d times on its completion channel", i, n), human)
-		}
-		if cmd.Status().OK() && c.res != "r" {
-			st.Fail(idx, "carries", fmt.Sprintf("call %d completed OK without the peer's reply (result %q)", i, c.res), human)
-		}
-	}
-	if n := erpc.VerifPendingCalls(w.sess); n != 0 {
-		st.Fail(idx, "hang", fmt.Sprintf("%d calls left in the pending table", n), human)
-	}
-	if rc := w.readerClass(); rc != "gone" {
-		st.Fail(idx, "hang", "read loop still alive after the connection was lost: "+rc, human)
-	}
-	if w.closing {
-		select {
-		case <-w.closed:
-		case <-time.After(settleTimeout):
-			st.Fail(idx, "hang", "Close() did not return after the connection was lost", human)
-		}
-	}
-	_ = cfg
-	return VL(ins...), VL(outs...)
-}
-
-func genScript(cfg *RunCfg, st *Stats) []string {
-	r := cfg.Rng
-	var s []string
-	n := 3 + r.Intn(9)
-	issued := 0
-	armC, armR := false, false
-	for e := 0; e < n; e++ {
-		k := r.Intn(100)
-		switch {
-		case issued == 0 || k < 22:
-			if r.Intn(8) == 0 {
-				s = append(s, fmt.Sprintf("issuecut:%d", r.Intn(40)))
-				st.Count("ev:issue-cut-request-offset")
-			} else {
-				s = append(s, "issue")
-				st.Count("ev:issue")
-			}
-			issued++
-		case k < 58:
-			i := r.Intn(issued)
-			cls := replyClasses[r.Intn(len(replyClasses))]
-			s = append(s, fmt.Sprintf("reply:%d:%s", i, cls))
-			st.Count("ev:reply-" + cls)
-			if r.Intn(4) == 0 { // duplicate straight behind
-				s = append(s, fmt.Sprintf("reply:%d:%s", i, replyClasses[r.Intn(3)]))
-				st.Count("ev:reply-duplicate")
-			}
-		case k < 63:
-			s = append(s, "wrongseq")
-			st.Count("ev:reply-wrongseq")
-		case k < 68:
-			s = append(s, fmt.Sprintf("bad:%d", r.Intn(3)))
-			st.Count("ev:hostile-bytes")
-		case k < 73:
-			s = append(s, "lost")
-			st.Count("ev:lost")
-		case k < 78:
-			s = append(s, fmt.Sprintf("lostpartial:%d:%d", r.Intn(issued), 1+r.Intn(30)))
-			st.Count("ev:cut-reply-offset")
-		case k < 82:
-			s = append(s, "close")
-			st.Count("ev:close")
-		case k < 86 && !armC:
-			// a caller parked after its write (gate write.done sits inside the session write
-			// lock, so no other call is issued until it is released)
-			s = append(s, "arm:callerw", "issue")
-			issued++
-			for j := r.Intn(3); j > 0; j-- {
-				switch r.Intn(4) {
-				case 0:
-					s = append(s, "lost")
-				case 1:
-					s = append(s, fmt.Sprintf("reply:%d:%s", issued-1, replyClasses[r.Intn(len(replyClasses))]))
-				case 2:
-					s = append(s, "close")
-				default:
-					s = append(s, fmt.Sprintf("bad:%d", r.Intn(3)))
-				}
-			}
-			s = append(s, "disarm:callerw")
-			st.Count("ev:gate-caller-after-write")
-		case k < 92:
-			if armC {
-				s = append(s, "disarm:caller")
-			} else {
-				s = append(s, "arm:caller")
-			}
-			armC = !armC
-			st.Count("ev:gate-caller")
-		default:
-			if armR {
-				s = append(s, "disarm:reply")
-			} else {
-				s = append(s, "arm:reply")
-			}
-			armR = !armR
-			st.Count("ev:gate-reply")
-		}
-	}
-	return s
 }
 
 func main() {
-	cfg := ParseFlags()
-	Quiet()
-	st := NewStats("C02", cfg)
-	st.Rule = "histories of 3..13 events over {issue, issue with the request cut at byte offset k, reply of class ok/remote-status/undecodable(codec set)/undecodable(codec 0)/hook-refused/decode-panic, duplicate reply, unknown seq, malformed bytes, connection lost, reply stream cut at byte offset k, local Close, gates parking callers inside AsyncCall before the write (call.stored) and after it (write.done) / reply handlers before done}; every history ends with the connection lost; thorough tier adds every cut offset of one request and one reply frame; distinct by script; non-trivial = at least one call and one reply or loss event"
-	cw := NewCaseWriter(cfg)
-	distinct := DistinctSet{}
-	var scripts [][]string
-	// fixed scripts: the known failing histories and every cut offset
-	scripts = append(scripts,
-		[]string{"issue", "reply:0:undec0"},
-		[]string{"issue", "reply:0:panic"},
-		[]string{"issue", "arm:reply", "reply:0:ok", "reply:0:ok", "disarm:reply"},
-		[]string{"arm:caller", "issue", "reply:0:ok", "disarm:caller"},
-		[]string{"issue", "close", "reply:0:ok"},
-		[]string{"issue", "close", "lost"},
-		[]string{"issue", "issue", "close", "lost"},
-		[]string{"arm:callerw", "issue", "lost", "disarm:callerw"},
-		[]string{"issue", "arm:callerw", "issue", "lost", "disarm:callerw"},
-		[]string{"arm:callerw", "issue", "close", "lost", "disarm:callerw"},
-	)
-	nOff := 8
-	if cfg.Tier == "thorough" {
-		nOff = 40
-	}
-	for k := 0; k < nOff; k++ {
-		scripts = append(scripts, []string{"issue", fmt.Sprintf("issuecut:%d", k), "reply:0:ok"})
-		scripts = append(scripts, []string{"issue", "issue", fmt.Sprintf("lostpartial:0:%d", k+1)})
-	}
-	for len(scripts) < cfg.N {
-		scripts = append(scripts, genScript(cfg, st))
-	}
-	scripts = scripts[:cfg.N]
-	for i, sc := range scripts {
-		in, out := runCase(cfg, st, i, sc)
-		cw.Add(in, out)
-		key := strings.Join(sc, " ")
-		if strings.Contains(key, "issue") && (strings.Contains(key, "reply") || strings.Contains(key, "lost") || strings.Contains(key, "bad")) {
-			distinct.Add(key)
-		}
-		if len(st.Samples) < 5 {
-			st.Samples = append(st.Samples, key)
+	p0 := "raw"
+	proto := &p0
+	_ = erpc.TypeReply
+	// flag.Parse happens in the engine (ParseFlags); peek at -proto by hand
+	for i, a := range flagArgs() {
+		if (a == "-proto" || a == "--proto" || a == "-mode" || a == "--mode") && i+1 < len(flagArgs()) {
+			*proto = flagArgs()[i+1]
 		}
 	}
-	st.Evaluations = len(scripts)
-	st.DistinctNontrivial = len(distinct)
-	st.Write(cfg, cw)
+	if *proto == "http" {
+		c02eng.Run(httpFamily())
+	} else {
+		c02eng.Run(rawFamily())
+	}
 }
+
+func flagArgs() []string { return osArgs[1:] }
